@@ -267,19 +267,21 @@ def r1(ctx):
             recv = None
             if g is not crt:
                 cons = closure_consumer(prog, g)
-                if cons and cons[0].id == crt.id and cons[1].args:
+                if cons and cons[0].id in {h.id for h in fam} and cons[1].args:
                     recv, host = cons[1].args[0], cons[0]
             elif crt.in_loop(c.bb):
                 recv, host = c.args[0], crt
             if recv is not None:
                 ad, lv = iter_chain(prog, host, recv)
                 def whole_map(lf, o):
-                    if lf.id != crt.id:
-                        return False
-                    if o.kind == "param" and o.ref == 2:
+                    def is_map(h, r):
+                        return h.id == crt.id and r.kind == "param" and r.ref == 2
+                    if is_map(lf, o):
+                        return True
+                    if o.kind == "param" and any(is_map(h, r) for h, r in ultimate_roots(prog, lf, ["c", [o.ref, list(o.proj)]], TRANSPARENT)):
                         return True
                     return o.kind == "call" and o.ref.name in ("values", "iter", "into_iter", "values_mut", "iter_mut") and o.ref.args and \
-                        any(r.kind == "param" and r.ref == 2 for r in deep_roots(prog, lf, o.ref.args[0], TRANSPARENT))
+                        any(is_map(h, r) for h, r in ultimate_roots(prog, lf, o.ref.args[0], TRANSPARENT))
                 if any(whole_map(lf, o) for lf, o in lv):
                     on_all = True
                     dropped += [a.name for _, a in ad if a.name in DROPPING_ITER]
